@@ -80,7 +80,10 @@ def main():
                     caught[p] = {"rc": pr.returncode, "lines": [l[:400] for l in fails[:4]]}
     finally:
         sh("git -C /repo checkout -- .")
-    target = meta.get("property", "?")
+    import re as _re
+
+    target = meta.get("property") or (_re.search(r"(C\d\d)", src).group(1) if _re.search(r"(C\d\d)", src) else "?")
+    meta["property"] = target
     out["caught_by"] = caught
     out["target_property"] = target
     out["caught_by_target"] = target in caught and caught[target]["rc"] == 1
@@ -88,6 +91,14 @@ def main():
     for p, v in caught.items():
         for l in v["lines"]:
             print(f"  [{p} rc={v['rc']}] {l[:300]}")
+    if "--rerun" in sys.argv:
+        # refresh the recorded outcome of an already stored seed
+        mp = os.path.join(src, "meta.json")
+        meta.setdefault("checks", {})
+        meta["checks"].update({"caught_by": sorted(caught), "caught_by_target": out["caught_by_target"], "reports": {p: v["lines"][:2] for p, v in caught.items()},
+                               "rerun_at": time.strftime("%Y-%m-%d %H:%M:%S")})
+        json.dump(meta, open(mp, "w"), indent=1)
+        return 0
     if keep:
         dst = os.path.join(VERIF, "seeded", keep)
         os.makedirs(dst, exist_ok=True)
